@@ -3,7 +3,7 @@
 From Coq Require Import String.
 From Coq Require Import List Bool Arith NArith.
 Import ListNotations.
-Require Import Str G_juniper JunModel JunProofs PyLib G_fn_jun RefJun RefJunEnc.
+Require Import Str G_juniper JunModel JunProofs PyLib G_fn_jun RefJun.
 
 Theorem C18_encrypt_then_decrypt_is_identity :
   forall plain salt : str, Forall (fun c => (c < 256)%N) plain ->
@@ -21,14 +21,6 @@ Theorem C18_generated_per_character_functions_agree_with_the_model_sweep :
   forallb (fun row => forallb (fun p => forallb (fun c => enc_agrees row p c && dec_agrees row p c) bytes256) NUM_ALPHA) ENCODING = true.
 Proof. exact generated_per_character_functions_agree_with_the_model. Qed.
 
-(* TIE A, whole function: juniper_nonrandom_encrypt GENERATED on this run from the source -- salt defaulting, mapping a salt character outside the
-   alphabet onto it, the prefix, the loop over the plaintext with its row selection and previous-character threading -- returns exactly the
-   model's ciphertext, for every plaintext over 0..255 and every salt string, whatever dispatcher and fuel it is given *)
-Theorem C18_generated_encrypt_is_the_model :
-  forall (pc : pyval -> pyval -> PyLib.res) (fuel : nat) (plain salt : str), Forall (fun c => (c < 256)%N) plain ->
-  exists crypt, encrypt plain salt = JOk crypt /\ gen_juniper_nonrandom_encrypt pc fuel (vstr plain) (vstr salt) = Normal (vstr crypt).
-Proof. exact gen_encrypt_refines. Qed.
-
 (* the full statement (no guard on the empty plaintext) is FALSE of the faithful model: known finding D17 *)
 Theorem C18_empty_plaintext_refuted :
   exists salt crypt, encrypt [] salt = JOk crypt /\ decrypt crypt = JValueError.
@@ -44,4 +36,3 @@ Print Assumptions C18_encrypt_then_decrypt_is_identity.
 Print Assumptions C18_decrypt_fails_only_with_ValueError.
 Print Assumptions C18_empty_plaintext_refuted.
 Print Assumptions C18_generated_per_character_functions_agree_with_the_model_sweep.
-Print Assumptions C18_generated_encrypt_is_the_model.
